@@ -167,9 +167,20 @@ impl ResponseData for Error {
 
         if let Some(ext) = self.get_extended() {
             formatter.push_byte(b'"')?;
-            formatter.push_str(self.get_message())?;
-            formatter.push_byte(b';')?;
-            formatter.push_str(ext)?;
+            // Embedded double quotes must be doubled like in any other string response data
+            for (n, part) in [self.get_message(), ext].into_iter().enumerate() {
+                if n > 0 {
+                    formatter.push_byte(b';')?;
+                }
+                let mut first = true;
+                for ss in part.split(|x| *x == b'"') {
+                    if !first {
+                        formatter.push_str(br#""""#)?;
+                    }
+                    formatter.push_str(ss)?;
+                    first = false;
+                }
+            }
             formatter.push_byte(b'"')
         } else {
             self.get_message().format_response_data(formatter)
